@@ -212,6 +212,25 @@ def run(ctx):
                         check_self_compare(ctx, FB, 'C11.3-eq-hash-fields')
                 sets[m] = fs
         short = ty.rsplit('::', 1)[1]
+        # a hand-written == is field-wise: nothing but == of the fields (and of their parts); a helper that relaxes the
+        # comparison of one field (prefix, trailing zeros, case ...) makes == coarser than hash and the order, which stay field-wise
+        eqi = [i for i in ctx.F.impls if i['self'] == ty and (i.get('trait') or '') == 'core::cmp::PartialEq']
+        if eqi and not eqi[0].get('derived'):
+            odd = []
+            for it in eqi[0]['items']:
+                for FB in bodies_of_fn(P, it):
+                    for bb, t in FB.calls():
+                        nm = (callee_of(t)[0] or '?')
+                        last = nm.rsplit('::', 1)[-1]
+                        if last in ('eq', 'ne', 'deref', 'as_ref', 'borrow', 'as_str', 'as_slice', 'as_bytes'):
+                            continue
+                        odd.append((FB, bb, nm))
+            if odd:
+                FB, bb, nm = odd[0]
+                ctx.bad('C11.3-eq-hash-fields', short + ':eq-fieldwise', 'the hand-written == of %s is not plain field-wise equality (it calls %s): values it treats as equal can still differ for Hash and Ord, which compare the fields exactly'
+                        % (short, nm.rsplit('::', 2)[-2] + '::' + nm.rsplit('::', 1)[-1] if '::' in nm else nm), ctx.where(FB, bb), key='EQHASH:%s:eq-not-fieldwise' % ty)
+            else:
+                ctx.ok('C11.3-eq-hash-fields', short + ':eq-fieldwise', 'hand-written == consists of == on fields only')
         if 'eq' in sets and 'hash' in sets:
             extra = sets['hash'] - sets['eq']
             if extra:
